@@ -1602,8 +1602,10 @@ def run(ctx):
                 'weight exactly 0); monitor: ' + mon_rule}
     ctx.assumptions = [
         'the recovery construction of the SMWPM decoders (graph nodes/edges, clustering, paths, final XOR) is modelled in '
-        'Model/Smwpm.lean and proved to return to the code space for ANY perfect matchings; edge weights and gt.mwpm '
-        '(networkx) are not modelled (irrelevant to this property as long as the matching is perfect, checked per decode)',
+        'Model/Smwpm.lean and proved to return to the code space for ANY perfect matchings; the edge weights are modelled in '
+        'Model/SmwpmWeight.lean (step counts, pruning, which contexts raise; the float VALUES of the three step weights are '
+        'recomputed in the harness); gt.mwpm (networkx) is not modelled (irrelevant to this property as long as the matching '
+        'is perfect, checked per decode)',
         'numpy Generator.choice never returns an outcome of probability 0 (q = 1 gives all flips, checked on every run)',
         'error models generate errors inside the GF(2) span used for the enumeration (all Paulis / Y-only / identity)',
         'code.stabilizers of the rotated codes is the matrix the property is about (C07)',
@@ -1618,6 +1620,15 @@ def run(ctx):
                 'are made by the real app.run_once_ftp with scripted step errors / flips and additionally tie the stage '
                 't-parities, success, custom_values (op tftp) and the rows / verdict of the run (op trun) to '
                 'Model/SmwpmTp.lean'}
+    from qv import c03_weights
+    wt = c03_weights.cases(ctx)
+    ctx.explored['smwpm_edge_weights_tie'] = {
+        'evaluations': int(wt['pairs'] + wt['edges'] + wt['clusters']), 'exhaustive': False,
+        'rule': '_distance of both SMWPM decoders on all / random ordered node pairs in every argument context (step counts, '
+                'value under integer step weights, exception class; float value recomputed, 1e-12), every key and weight of '
+                'real _graph / _graphs dictionaries on reachable syndromes (and the _add_edge filter), _cluster_distance on '
+                'random cluster pairs — compared exactly with Model/SmwpmWeight.lean (theorems: Props/C03/Weights.lean); '
+                'pairs={pairs} graph-edges={edges} cluster-pairs={clusters}'.format(**wt)}
     ctx.explored['single_step_runs'] = {
         'evaluations': int(n_single), 'exhaustive': False,
         'rule': 'app.run_once_ftp / app.run_ftp with time_steps=1 and the real rotated-toric decoder over sizes, p, q in '
@@ -1671,6 +1682,9 @@ def search(m):
     """is the PROPERTY false on the real code for the disagreeing case?"""
     toks = m['op'].split()
     meta = m.get('meta') or {}
+    if meta.get('kind') == 'weights':
+        from qv import c03_weights
+        return c03_weights.search(m)
     if toks[1] == 'mon':
         S, rows = unmat(toks[2]), unmat(toks[3])
         r = np.array([int(c) for c in toks[4]], dtype=int)
